@@ -112,10 +112,21 @@ def circuit_from_cirq(cirq_circuit: Circuit) -> ImmutableQuantumCircuit:
                 )
             )
         else:
+            # Cirq's matrix is big-endian in operation.qubits whereas a
+            # UnitaryMatrix gate is little-endian in target_indices, so the
+            # qubit order of the matrix has to be reversed.
+            n = len(operation.qubits)
+            axes = tuple(reversed(range(n)))
+            matrix = (
+                unitary(gate)
+                .reshape((2,) * (2 * n))
+                .transpose(axes + tuple(n + i for i in axes))
+                .reshape((2**n, 2**n))
+            )
             circuit.add_gate(
                 UnitaryMatrix(
                     target_indices=[i.x for i in operation.qubits],
-                    unitary_matrix=unitary(gate).tolist(),
+                    unitary_matrix=matrix.tolist(),
                 )
             )
     return circuit
